@@ -2,6 +2,7 @@ import ParryModel.Proto
 import ParryModel.C02.Model
 import ParryModel.C03.Oracle
 import ParryModel.C03.Driver
+import ParryModel.C02.Exact
 /-!
 C02 protocol handlers (closed forms).  The closed-form `details::` functions and their exact world-frame judges
 (`judgeContact` = contact validity: unit normals, `normal2 = -normal1` in world space, `dist = (p2 - p1)·n1`,
@@ -70,6 +71,149 @@ def judgeSelf (tag : String) (sz S pred : Rat) (c : Contact3 Rat) (memb : List S
       else if q m2 > wtol then s!"fail witness2-not-on-its-shape {tag}{touch} off-by={m2}"
       else "pass"
 
+
+/-! ## follow-up 2: judges against the exact signed separation (`Exact.lean`) -/
+
+/-- one evaluation of the four queries: `<it> <distance> <intersecting | disjoint | within gap> <none | some dist>` -/
+structure Four where
+  it : Bool
+  dist : Float
+  /-- `0` intersecting, `1` within margin (gap in `gap`), `2` disjoint -/
+  cp : Nat
+  gap : Float
+  contact : Option Float
+
+def pFour : P Four := do
+  let it ← pbool; let d ← pfo
+  let k ← tok
+  let (cp, gap) ← (match k with
+    | "intersecting" => pure (0, 0.0)
+    | "disjoint" => pure (2, 0.0)
+    | "within" => do let g ← pfo; pure (1, g)
+    | _ => failure : P (Nat × Float))
+  let c ← tok
+  let contact ← (match c with
+    | "none" => pure none
+    | "some" => do let x ← pfo; pure (some x)
+    | _ => failure : P (Option Float))
+  pure ⟨it, d, cp, gap, contact⟩
+
+/-- the four answers against the exact signed separation `sep` of the pair (for composites: least over the parts; a
+negative value then only means "overlapping by more than the tolerance") -/
+def judgeFourExact (tag : String) (sep t margin pred : Rat) (f : Four) : String :=
+  let fin := FloatIO.isFinite f.dist && FloatIO.isFinite f.gap && (f.contact.map FloatIO.isFinite).getD true
+  if !fin then s!"fail nonfinite-output {tag}" else
+  let d := q f.dist; let g := q f.gap
+  if sep > t then
+    if f.it then s!"fail intersection-test-true-but-separated {tag} exact-separation={sep.toF}"
+    else if rabs (d - sep) > t then s!"fail distance-is-not-the-separation {tag} distance={f.dist} exact-separation={sep.toF}"
+    else if f.cp == 0 then s!"fail closest-points-intersecting-but-separated {tag} exact-separation={sep.toF}"
+    else if f.cp == 1 && sep > margin + t then s!"fail closest-points-within-but-beyond-margin {tag} exact-separation={sep.toF}"
+    else if f.cp == 1 && rabs (g - sep) > t then s!"fail closest-points-gap-is-not-the-separation {tag} gap={f.gap} exact-separation={sep.toF}"
+    else if f.cp == 2 && sep < margin - t then s!"fail closest-points-disjoint-but-within-margin {tag} exact-separation={sep.toF}"
+    else match f.contact with
+      | none => if sep < pred - t then s!"fail no-contact-but-within-prediction {tag} exact-separation={sep.toF}" else "pass"
+      | some c =>
+        if sep > pred + t then s!"fail contact-beyond-prediction {tag} exact-separation={sep.toF}"
+        else if rabs (q c - sep) > t then s!"fail contact-dist-is-not-the-separation {tag} contact-dist={c} exact-separation={sep.toF}"
+        else "pass"
+  else if sep < -t then
+    if !f.it then s!"fail intersection-test-false-but-overlapping {tag} exact-overlap={sep.toF}"
+    else if d > t then s!"fail distance-positive-but-overlapping {tag} distance={f.dist} exact-overlap={sep.toF}"
+    else if f.cp == 1 && g ≤ t then s!"fail closest-points-within-zero-gap-while-overlapping {tag} exact-overlap={sep.toF}"
+    else if f.cp != 0 then s!"fail closest-points-not-intersecting-while-overlapping {tag} exact-overlap={sep.toF}"
+    else match f.contact with
+      | none => s!"fail no-contact-but-overlapping {tag} exact-overlap={sep.toF}"
+      | some c => if q c > t then s!"fail contact-dist-positive-but-overlapping {tag} contact-dist={c} exact-overlap={sep.toF}" else "pass"
+  else "skip near-touching"
+
+/-- no exact referee: the four answers against each other (independent traversals / algorithms of the library) -/
+def judgeFourCross (tag : String) (t margin pred : Rat) (f : Four) : String :=
+  let fin := FloatIO.isFinite f.dist && FloatIO.isFinite f.gap && (f.contact.map FloatIO.isFinite).getD true
+  if !fin then s!"fail nonfinite-output {tag}" else
+  let d := q f.dist; let g := q f.gap
+  let tt := t + (1 / 1000000) * rabs d
+  if d > tt then
+    if f.it then s!"fail verdicts-disagree {tag} distance={f.dist} intersection-test=true"
+    else if f.cp == 0 then s!"fail verdicts-disagree {tag} distance={f.dist} closest-points=intersecting"
+    else if f.cp == 1 && rabs (g - d) > tt then s!"fail distances-disagree {tag} distance={f.dist} closest-points-gap={f.gap}"
+    else if f.cp == 2 && d < margin - tt then s!"fail closest-points-disjoint-but-distance-within-margin {tag} distance={f.dist}"
+    else match f.contact with
+      | none => if d < pred - tt then s!"fail no-contact-but-distance-within-prediction {tag} distance={f.dist}" else "pass"
+      | some c => if rabs (q c - d) > tt then s!"fail distances-disagree {tag} distance={f.dist} contact-dist={c}" else "pass"
+  else match f.contact with
+    | some c =>
+      if q c < -tt then
+        (if f.it && f.cp == 0 then "pass" else s!"fail verdicts-disagree {tag} contact-dist={c} intersection-test={f.it} closest-points-kind={f.cp}")
+      else "skip near-touching"
+    | none => s!"fail no-contact-but-distance-zero {tag}"
+
+def judgeBoth (sep : Option Rat) (tag : String) (t margin pred : Rat) (o : List String) : String :=
+  match o with
+  | "panic" :: _ => s!"fail panic {tag}"
+  | ["unsupported"] => "skip unsupported-pair"
+  | _ =>
+    let A := o.takeWhile (· ≠ ";"); let B := (o.dropWhile (· ≠ ";")).drop 1
+    match run pFour A, run pFour B with
+    | some a, some b =>
+      let one (ord : String) (f : Four) : String :=
+        match sep with
+        | some s => judgeFourExact s!"{tag} order={ord}" s (t + (1 / 1000000) * rabs s) margin pred f
+        | none => judgeFourCross s!"{tag} order={ord}" t margin pred f
+      let ra := one "12" a
+      if ra.startsWith "fail" then ra else
+      let rb := one "21" b
+      if rb.startsWith "fail" then rb else
+      if ra.startsWith "pass" || rb.startsWith "pass" then "pass" else ra
+    | _, _ => "fail unparsable-output"
+
+/-- two boxes with parallel faces whose centre offset lies in a symmetry plane of box 1 (the configuration of the known EPA
+finding: coplanar faces of the expanding polytope, non-minimal depth) -/
+def symmetricParallelBoxes (s1 s2 : XShape3) (m1 m2 : Iso3 Rat) : Bool :=
+  match s1, s2 with
+  | .prim (.cuboid _), .prim (.cuboid _) =>
+    let small (c : Rat) : Bool := rabs c ≤ 1 / 1000000000
+    let axisLike (v : V3 Rat) : Bool := [v.x, v.y, v.z].all fun c => small c || small (rabs c - 1)
+    let ax : List (V3 Rat) := [⟨1, 0, 0⟩, ⟨0, 1, 0⟩, ⟨0, 0, 1⟩]
+    let d := m1.invRot (m2.t.sub m1.t)
+    (ax.all fun e => axisLike (m1.invRot (m2.rot e))) && (small d.x || small d.y || small d.z)
+  | _, _ => false
+
+/-- the centre (vertex mean) of one core coincides with a vertex or the centre of the other: a configuration in which support
+points of the configuration-space obstacle are coplanar with faces of EPA's expanding polytope (known EPA finding) -/
+def centreOnVertex3 (A B : RP3 Rat) : Bool :=
+  let ctr (P : RP3 Rat) : V3 Rat := (bound3 P).1
+  let near (p q : V3 Rat) : Bool := vmag (p.sub q) ≤ 1 / 1000000000
+  let one (P Q : RP3 Rat) : Bool := P.vs.length > 1 && (near (ctr P) (ctr Q) || Q.vs.any (near (ctr P)))
+  one A B || one B A
+
+/-- contact of a convex pair against the exact signed separation `sep` (distance when apart, minus the minimum separating
+translation when overlapping) and the overlap `over` along the reported normal (when available) -/
+def judgeExactContact (tag : String) (sep t pred : Rat) (over : V3 Rat → Option Rat) (self : Contact3 Rat → String)
+    (out : Option (Contact3 Rat)) : String :=
+  match out with
+  | none =>
+    if sep < pred - t then s!"fail none-but-within-prediction {tag} exact-separation={sep.toF} prediction={pred.toF}"
+    else if sep > pred + t then "pass" else "skip near-prediction"
+  | some c =>
+    -- the value first (a wrong depth is the more fundamental failure), then the record's self-consistency
+    if sep > pred + t then s!"fail some-but-beyond-prediction {tag} exact-separation={sep.toF} prediction={pred.toF}"
+    else if rabs (c.dist - sep) > t then
+      (if sep > 0 then s!"fail dist-is-not-the-separation {tag} dist={c.dist.toF} exact-separation={sep.toF}"
+       else
+        -- the reported normal is a minimising direction but the witnesses are not `depth` apart along it
+        let shortAlongRightNormal := match over c.normal1 with
+          | some ov => rabs (ov + sep) ≤ t && c.dist < 0 && -c.dist < ov - t
+          | none => false
+        if shortAlongRightNormal then s!"fail witnesses-short-of-the-depth-along-a-minimising-normal1 {tag} dist={c.dist.toF} exact={sep.toF}"
+        else s!"fail depth-is-not-the-minimum-translation {tag} dist={c.dist.toF} exact={sep.toF}")
+    else
+    let s := self c
+    if s != "pass" then s
+    else match over c.normal1 with
+      | some ov => if c.dist < 0 && -c.dist > ov + t then s!"fail depth-exceeds-overlap-along-normal1 {tag} dist={c.dist.toF} overlap={ov.toF}" else "pass"
+      | none => "pass"
+
 def handlerCore (fn : String) : Option Handler :=
   match fn with
   | "d_contact" | "d_distance" | "d_it" | "d_cp" | "q_contact" | "q_distance" | "q_it" | "q_cp"
@@ -125,7 +269,7 @@ def handlerCore (fn : String) : Option Handler :=
             match exact with
             | some sep =>
               if sep > t then (if allAre vs false then "pass" else s!"fail verdicts-disagree {pair} exact-separation={sep.toF} got={vs}")
-              else if sep < -t then (if allAre vs true then "pass" else s!"fail verdicts-disagree {pair} exact-overlap={sep.toF} got={vs}")
+              else if sep < -t then (if allAre vs true then "pass" else s!"fail verdicts-disagree {pair} exact-overlap={sep.toF} got={vs} contact-dist={cdist}")
               else "skip near-touching"
             | none =>
               if !FloatIO.isFinite dist then "fail nonfinite-distance" else
@@ -205,6 +349,131 @@ def handlerCore (fn : String) : Option Handler :=
               if !(unitC (qiso2 m1) && unitC (qiso2 m2)) then "skip non-unit-rotation" else
               judgeSelf tag (s1.size + s2.size) (vmag2 (q2 m1.t) + vmag2 (q2 m2.t)) (q pred) (embedC (qcontact2 c)) memb
             | _ => "fail unparsable-output"
+        | none => "skip bad-args" }
+  | "e2_contact" => some {
+      model := fun _ => some "oracle-only"
+      oracle := fun a o => match run (do let a ← pxshape2; let m1 ← piso2; let b ← pxshape2; let m2 ← piso2; let p ← pf; pure (a, m1, b, m2, p)) a with
+        | some (s1, m1, s2, m2, pred) =>
+          let tag := s!"pair={s1.kind}/{s2.kind}"
+          match o with
+          | "panic" :: _ => s!"fail panic {tag}"
+          | ["unsupported"] => "skip unsupported-pair"
+          | _ =>
+            if s1.isComposite || s2.isComposite then "skip composite" else
+            if !(unitC (qiso2 m1) && unitC (qiso2 m2)) then "skip non-unit-rotation" else
+            if q pred < 0 then "skip negative-parameter" else
+            let (res, memb) := splitAt o
+            match run pcontactOut2 res, geom2 s1 (qiso2 m1), geom2 s2 (qiso2 m2) with
+            | some out, some G1, some G2 =>
+              (match sepG2 G1 G2 with
+              | none => "skip no-exact-separation"
+              | some sep =>
+                if (out.map finiteContact2).getD true == false then s!"fail nonfinite-output {tag}" else
+                let sz := s1.size + s2.size; let S := vmag2 (q2 m1.t) + vmag2 (q2 m2.t)
+                let t : Rat := (1 / 1000000) * (1 + sz + S + rabs sep)
+                let over (n : V3 Rat) : Option Rat := match G1, G2 with
+                  | .conv A, .conv B => some (overlapAlong2 A B ⟨n.x, n.y⟩)
+                  | _, _ => none
+                let tag := match G1, G2 with
+                  | .conv A, .conv B => if roundTouching2 A B then tag ++ "[round-cores-touching]" else if A.r + B.r > 0 then tag ++ "[round]" else tag
+                  | _, _ => tag
+                judgeExactContact tag sep t (q pred) over (fun c => judgeSelf tag sz S (q pred) c memb)
+                  (out.map fun c => embedC (qcontact2 c)))
+            | none, _, _ => "fail unparsable-output"
+            | _, _, _ => "skip no-exact-geometry"
+        | none => "skip bad-args" }
+  | "e_contact" => some {
+      model := fun _ => some "oracle-only"
+      oracle := fun a o => match run (do let a ← pxshape3; let m1 ← piso3; let b ← pxshape3; let m2 ← piso3; let p ← pf; pure (a, m1, b, m2, p)) a with
+        | some (s1, m1, s2, m2, pred) =>
+          let tag := s!"pair={s1.kind}/{s2.kind}" ++ (if symmetricParallelBoxes s1 s2 (qiso3 m1) (qiso3 m2) then "[symmetric-parallel-boxes]" else "")
+          match o with
+          | "panic" :: _ => s!"fail panic {tag}"
+          | ["unsupported"] => "skip unsupported-pair"
+          | _ =>
+            if s1.isComposite || s2.isComposite then "skip composite" else
+            if !(unitQ (qiso3 m1) && unitQ (qiso3 m2)) then "skip non-unit-rotation" else
+            if q pred < 0 then "skip negative-parameter" else
+            let (res, memb) := splitAt o
+            match run pcontactOut res, geom3 s1 (qiso3 m1), geom3 s2 (qiso3 m2) with
+            | some out, some G1, some G2 =>
+              (match sepG3 G1 G2 with
+              | none => "skip no-exact-separation"
+              | some sep =>
+                if (out.map finiteContact).getD true == false then s!"fail nonfinite-output {tag}" else
+                let sz := s1.size + s2.size; let S := vmag (q3 m1.t) + vmag (q3 m2.t)
+                let t : Rat := (1 / 1000000) * (1 + sz + S + rabs sep)
+                let over (n : V3 Rat) : Option Rat := match G1, G2 with
+                  | .conv A _, .conv B _ => some (overlapAlong3 A B n)
+                  | _, _ => none
+                let tag := match G1, G2 with
+                  | .conv A Af, .conv B Bf => if roundTouching3 A Af B Bf then tag ++ "[round-cores-touching]" else if A.r + B.r > 0 then tag ++ "[round]" else tag
+                  | _, _ => tag
+                let tag := match G1, G2 with
+                  | .conv A _, .conv B _ => if centreOnVertex3 A B then tag ++ "[centre-on-vertex]" else tag
+                  | _, _ => tag
+                judgeExactContact tag sep t (q pred) over (fun c => judgeSelf tag sz S (q pred) c memb)
+                  (out.map qcontact))
+            | none, _, _ => "fail unparsable-output"
+            | _, _, _ => "skip no-exact-geometry"
+        | none => "skip bad-args" }
+  | "v2_comp" => some {
+      model := fun _ => some "oracle-only"
+      oracle := fun a o => match run (do let a ← pxshape2; let m1 ← piso2; let b ← pxshape2; let m2 ← piso2; let mg ← pf; let p ← pf; pure (a, m1, b, m2, mg, p)) a with
+        | some (s1, m1, s2, m2, margin, pred) =>
+          let tag := s!"pair={s1.kind}/{s2.kind} parts={s1.nparts}/{s2.nparts}"
+          if q margin < 0 || q pred < 0 then "skip negative-parameter" else
+          if !(unitC (qiso2 m1) && unitC (qiso2 m2)) then "skip non-unit-rotation" else
+          let sz := s1.size + s2.size; let S := vmag2 (q2 m1.t) + vmag2 (q2 m2.t)
+          let t : Rat := (1 / 1000000) * (1 + sz + S)
+          let sep : Option Rat := match geom2 s1 (qiso2 m1), geom2 s2 (qiso2 m2) with
+            | some G1, some G2 => sepG2 G1 G2
+            | _, _ => none
+          judgeBoth sep tag t (q margin) (q pred) o
+        | none => "skip bad-args" }
+  | "v_comp" => some {
+      model := fun _ => some "oracle-only"
+      oracle := fun a o => match run (do let a ← pxshape3; let m1 ← piso3; let b ← pxshape3; let m2 ← piso3; let mg ← pf; let p ← pf; pure (a, m1, b, m2, mg, p)) a with
+        | some (s1, m1, s2, m2, margin, pred) =>
+          let tag := s!"pair={s1.kind}/{s2.kind} parts={s1.nparts}/{s2.nparts}"
+          if q margin < 0 || q pred < 0 then "skip negative-parameter" else
+          if !(unitQ (qiso3 m1) && unitQ (qiso3 m2)) then "skip non-unit-rotation" else
+          let sz := s1.size + s2.size; let S := vmag (q3 m1.t) + vmag (q3 m2.t)
+          let t : Rat := (1 / 1000000) * (1 + sz + S)
+          -- a TriMesh with flags is not a plain union of triangles for every query (ORIENTED: solid for point queries)
+          let plain (s : XShape3) : Bool := match s with
+            | .trimesh f _ _ => f == 0
+            | _ => true
+          let sep : Option Rat :=
+            if !(plain s1 && plain s2) then none else
+            match geom3 s1 (qiso3 m1), geom3 s2 (qiso3 m2) with
+            | some G1, some G2 => sepG3 G1 G2
+            | _, _ => none
+          judgeBoth sep tag t (q margin) (q pred) o
+        | none => "skip bad-args" }
+  | "rect2_dist" => some {
+      -- args: he1 he2 t pos1 ; output: the contact distance (prediction 1e6)
+      model := fun a => run (do
+        let he1 ← pv2; let he2 ← pv2; let t ← pv2; let _ ← piso2
+        pure (ff (rectSignedDist he1 he2 t))) a
+      oracle := fun a o => match run (do let he1 ← pv2; let he2 ← pv2; let t ← pv2; let m ← piso2; pure (he1, he2, t, m)) a with
+        | some (he1, he2, t, m1) =>
+          let M1 := qiso2 m1
+          if !unitC M1 then "skip non-unit-rotation" else
+          withOut pfo o fun d =>
+            if !FloatIO.isFinite d then "fail nonfinite-output" else
+            -- independent referee: the generic rounded-polygon separation of `Exact.lean` on the posed rectangles
+            let M2 : Iso2 Rat := ⟨M1.re, M1.im, M1.act (q2 t)⟩
+            match geom2 (.prim (.cuboid he1)) M1, geom2 (.prim (.cuboid he2)) M2 with
+            | some G1, some G2 =>
+              (match sepG2 G1 G2 with
+              | some sep =>
+                let tl : Rat := (1 / 1000000) * (1 + vmag2 (q2 he1) + vmag2 (q2 he2) + vmag2 (q2 t) + vmag2 M1.t)
+                if rabs (q d - sep) ≤ tl then "pass"
+                else if sep > 0 then s!"fail dist-is-not-the-separation dist={d} exact-separation={sep.toF}"
+                else s!"fail depth-is-not-the-minimum-translation dist={d} exact={sep.toF}"
+              | none => "skip no-exact-separation")
+            | _, _ => "skip no-exact-geometry"
         | none => "skip bad-args" }
   | _ => none
 
